@@ -2617,6 +2617,8 @@ class InventoryPreviewTree(PreviewTree, inventorytree.InventoryTree):
         """See Tree.get_symlink_target."""
         file_id = self.path2id(path)
         if not self._content_change(file_id):
+            if file_id is not None:
+                path = self._transform._tree.id2path(file_id)
             return self._transform._tree.get_symlink_target(path)
         trans_id = self._path2trans_id(path)
         name = self._transform._limbo_name(trans_id)
@@ -2626,6 +2628,8 @@ class InventoryPreviewTree(PreviewTree, inventorytree.InventoryTree):
         """See Tree.get_file."""
         file_id = self.path2id(path)
         if not self._content_change(file_id):
+            if file_id is not None:
+                path = self._transform._tree.id2path(file_id)
             return self._transform._tree.get_file(path)
         trans_id = self._path2trans_id(path)
         name = self._transform._limbo_name(trans_id)
